@@ -371,3 +371,43 @@ def triple_classes(t):
     if not c:
         c.append("generic-triple")
     return c
+
+
+# ---- special model families (maximal degeneracy) ---------------------------------------------------
+@st.composite
+def special_model_st(draw, cplx=None, max_modes=4, beta_lo=0.1, beta_hi=200.0, symm_modes=("default", "ignore", "custom")):
+    """non-interacting, atomic-limit and particle-hole symmetric Hubbard models on spin-1/2 single-orbital sites"""
+    if cplx is None:
+        cplx = draw(st.booleans())
+    kind = draw(st.sampled_from(["free", "atomic", "ph-hubbard"]))
+    nsites = draw(st.integers(1, max(1, max_modes // 2)))
+    labs = draw(st.lists(st.sampled_from(LABELS), min_size=nsites, max_size=nsites, unique=True))
+    sites = [[l, 1, 2] for l in labs]
+    terms = []
+    if kind == "free":
+        for l in labs:
+            terms.append(P("level", l, [draw(grid_amp(-8, 8)), 0.0]))
+        for a in range(nsites):
+            for b in range(a + 1, nsites):
+                terms.append(P("hop3", labs[a], labs[b], draw(camp(cplx))))
+        if draw(st.booleans()) and nsites >= 1:
+            # spin-mixing quadratic term
+            terms += with_hc(draw(camp(cplx)), [[1, labs[0], 0, 0], [0, labs[-1], 0, 1]])
+    elif kind == "atomic":
+        for l in labs:
+            terms.append(P("coulombS", l, [draw(grid_amp(0, 32)), 0.0], [draw(grid_amp(-16, 16)), 0.0]))
+    else:
+        U = draw(grid_amp(1, 32))
+        for l in labs:
+            terms.append(P("coulombS", l, [U, 0.0], [-U / 2, 0.0]))
+        t = draw(st.sampled_from([1.0, 0.5, -1.0, 0.25]))
+        for a in range(nsites - 1):
+            terms.append(P("hop3", labs[a], labs[a + 1], [t, 0.0]))
+    beta = draw(beta_st(beta_lo, beta_hi))
+    symm = draw(symm_st(sites, symm_modes))
+    return {"cplx": bool(cplx), "sites": sites, "terms": terms, "order_spins": 0, "symm": symm, "beta": beta, "family": kind}
+
+
+def any_model_st(special_share=0.3, **kw):
+    skw = {k: v for k, v in kw.items() if k in ("cplx", "max_modes", "beta_lo", "beta_hi", "symm_modes")}
+    return st.one_of(model_st(**kw), model_st(**kw), special_model_st(**skw)) if special_share else model_st(**kw)
